@@ -236,8 +236,14 @@ func ruleC09(c *Ctx) []*report.Result {
 						_ = setModes
 					} else {
 						r.Check(len(starts) == 1 && fl.before(starts[0], w.call), construct+" / classification bracket", pos, "the printer must bracket the write with exactly one start*/restore pair")
-						// configurations from A-fmt
+						// configurations from A-fmt (a closure made by the method and
+						// run by a helper is part of the method)
 						evs := evByFn[fn]
+						for _, g := range fl.inlined {
+							if g.Parent() == fn {
+								evs = append(evs, evByFn[g]...)
+							}
+						}
 						if f := w.call.Common().StaticCallee(); f != nil && recvNamed(f) == tPP {
 							// written through a leaf formatter of the printer: its own
 							// write events are checked by C02.a/C05.c in every configuration
